@@ -813,6 +813,52 @@ def heartbeat_monitor(case, out):
     return None
 
 
+def gen_rediscover_case(rng, cid):
+    """b suspects the live node a and, a minute on, forgets it (a one-way outage, a frozen process); a - which still knows b -
+    then completes one digest exchange with b over the datagram path: b knows a again, and a second exchange brings a's state"""
+    nn = rng.randint(2, 3)
+    nodes = [{"id": H(IDS[i]), "addr": H("10.0.0.%d:7000" % (i + 1))} for i in range(nn)]
+    ops = [{"op": "upsert", "n": n, "k": H("k%d" % j), "v": H("v%d" % n)} for n in range(nn) for j in range(rng.randint(1, 3))]
+    for n in range(1, nn):
+        ops.append({"op": "join", "a": n, "b": 0})
+    X = lambda a, b: [{"op": "send", "a": a, "b": b, "max": 1400}] + [{"op": "deliver", "i": 0, "max": 1400} for _ in range(4)]
+    if nn == 3:
+        ops += X(1, 2) + X(2, 1)
+    forgetters = [n for n in range(1, nn)]
+    for n in forgetters:
+        ops.append({"op": "liveness", "n": n, "levels": {nodes[0]["id"]: 1e9}})
+        ops.append({"op": "expire", "n": n, "ref": nodes[0]["id"], "d": 1})
+    ops.append({"op": "upsert", "n": 0, "k": H("later"), "v": H("x")})
+    mark = len(ops)
+    for n in forgetters:
+        ops += X(0, n) + X(0, n)
+    return {"id": cid, "nodes": nodes, "ops": ops, "forgotten": nodes[0]["id"], "forgetters": forgetters, "mark": mark}
+
+
+def rediscover_monitor(case, out):
+    if out.get("panic"):
+        return {"why": "panic/timeout: " + out["panic"], "sig": "panic"}
+    fv = {}
+    gone_seen = set()
+    for i, ob in enumerate(out["obs"]):
+        for v in ob["views"]:
+            if v["present"]: fv[(v["n"], v["id"])] = v
+            else: fv.pop((v["n"], v["id"]), None)
+        if i == case["mark"] - 1:
+            gone_seen = {n for n in case["forgetters"] if (n, case["forgotten"]) not in fv}
+    nm = lambda h: bytes.fromhex(h).decode("latin-1")
+    own = fv.get((0, case["forgotten"]))
+    for n in sorted(gone_seen):
+        v = fv.get((n, case["forgotten"]))
+        if v is None:
+            return {"why": "node %s had forgotten the live node %s (suspected, expired); %s then completed two digest exchanges with it and is still unknown to it"
+                           % (nm(case["nodes"][n]["id"]), nm(case["forgotten"]), nm(case["forgotten"])), "sig": "live-node-not-relearned"}
+        if own is not None and v["ver"] != own["ver"]:
+            return {"why": "node %s re-learned %s but holds version %d of %d after two complete exchanges" % (nm(case["nodes"][n]["id"]), nm(case["forgotten"]), v["ver"], own["ver"]),
+                    "sig": "live-node-not-relearned"}
+    return None
+
+
 def glue_probes(pid, binary, wd, rng, quick, which=("burst", "round", "heartbeat")):
     """runs the probes; returns (violations, coverage)"""
     viol, cov = [], {}
@@ -841,6 +887,17 @@ def glue_probes(pid, binary, wd, rng, quick, which=("burst", "round", "heartbeat
                              "replay_obj": {"property": pid, "kind": "heartbeat", "signature": f["sig"], "why": f["why"], "case": c}})
                 break
         cov["heartbeat"] = {"histories": len(cases), "exchanges": nex}
+    if "rediscover" in which:
+        cases = [gen_rediscover_case(rng, "redis%d" % i) for i in range(8 if quick else 80)]
+        outs = run_world(binary, wd, cases, tag="redis")
+        nforgot = 0
+        for c, o in zip(cases, outs):
+            f = rediscover_monitor(c, o)
+            if f:
+                viol.append({"what": "%s rediscovery probe: %s" % (pid, f["why"]), "found_input": True,
+                             "replay_obj": {"property": pid, "kind": "rediscover", "signature": f["sig"], "why": f["why"], "case": c}})
+                break
+        cov["rediscovery"] = {"histories": len(cases)}
     return viol, cov
 
 
@@ -850,6 +907,10 @@ def replay_glue(obj, binary, wd):
     if kind == "fd":
         out = run_world(binary, wd, [obj["case"]], tag="replay")[0]
         print(json.dumps({"monitor": fd_monitor(obj["case"], out)}, indent=1))
+        return True
+    if kind == "rediscover":
+        out = run_world(binary, wd, [obj["case"]], tag="replay")[0]
+        print(json.dumps({"monitor": rediscover_monitor(obj["case"], out)}, indent=1))
         return True
     if kind not in ("burst", "round", "heartbeat"):
         return False
